@@ -542,3 +542,146 @@ func TestC19Config(t *testing.T) {
 	writeSummary("C19", loaderRuns+1, loaderRuns+1, []string{"descriptor fold", fmt.Sprintf("%d store-loader runs", loaderRuns)}, map[string]int{"c19 store-loader runs": loaderRuns},
 		[]interface{}{map[string]interface{}{"mounted": setKeys(mounted), "fold": setKeys(final)}}, map[string]interface{}{"config_exhaustive": true})
 }
+
+// ---- two upgrades in sequence ---------------------------------------------------------------------
+
+// TestC19Sequence : a node that goes through the LAST TWO releases in order with this binary.
+// The state is first put into the shape it has before the older of the two upgrades (the
+// modules that descriptor introduces have no version-map entry and empty stores), custom-module
+// data is created by transactions, the older upgrade runs, more traffic (now also for the
+// introduced modules), then the newest upgrade runs after a stop at its height. After each
+// upgrade block: processed without halting, done-height recorded, stored version map equal to
+// the module manager's, aol/did/pnft stores unchanged across the block.
+func TestC19Sequence(t *testing.T) {
+	if len(app.Upgrades) < 2 {
+		t.Skip("fewer than two descriptors")
+	}
+	older, newest := app.Upgrades[len(app.Upgrades)-2], app.Upgrades[len(app.Upgrades)-1]
+	cfg1 := &MachineCfg{Prop: "C19", Gens: []interface{}{"aol", 40, "did", 40, "bank", 5, "commit", 15}, Bias: map[string]int{"right-signers": 95, "right-proof": 85}}
+	cfg2 := &MachineCfg{Prop: "C19", Gens: withGens("commit", 16), Bias: map[string]int{"right-signers": 95, "right-proof": 85}}
+	st := newPureStats("C19")
+	defer st.flush()
+	rapid.Check(t, func(rt *rapid.T) {
+		g := &G{T: rt, Bias: cfg1.Bias, W0Accts: simnet.DefaultAccounts(world.NumAccounts)}
+		home := caseDir("c19-seq-")
+		defer os.RemoveAll(home)
+		w, err := world.New(world.Options{Prop: "C19", Also: alsoSet([]string{"C01", "C13", "C03", "C04", "C05"}), Open: OpenFindings(), Dir: home})
+		if err != nil {
+			rt.Fatalf("world: %v", err)
+		}
+		g.W = w
+		fail := func(f string, a ...interface{}) {
+			msg := fmt.Sprintf(f, a...)
+			if p := os.Getenv("VERIF_REPLAY_OUT"); p != "" {
+				_ = w.WriteReplay(p, map[string]interface{}{"property": "C19", "kind": "rerun", "violation": msg})
+			}
+			rt.Fatalf("ORACLE C19: %s", msg)
+		}
+		steps := func(cfg *MachineCfg, n int) {
+			g.Bias = cfg.Bias
+			for i := 0; i < n; i++ {
+				if err := w.Apply(*g.genStep(cfg, g.weighted("kind", cfg.Gens...))); err != nil {
+					fail("%v", err)
+				}
+			}
+			if err := w.Apply(world.Step{Kind: "commit", DT: 5}); err != nil {
+				fail("%v", err)
+			}
+		}
+		custom := func() map[string][]simnet.KV {
+			out := map[string][]simnet.KV{}
+			for _, s := range []string{"aol", "did", "pnft"} {
+				out[s] = w.C.DumpStore(w.C.CommittedCtx(), s)
+			}
+			return out
+		}
+		// runs one upgrade: the plan is scheduled in block H-1 for H (optionally with the halt file
+		// and a restart at H), block H is executed, oracles
+		upgrade := func(u string, prepare func(ctx sdk.Context), stopAtHeight bool) {
+			if _, err := w.C.BeginBlock(5 * time.Second); err != nil {
+				fail("BeginBlock: %v", err)
+			}
+			ctx := w.C.DeliverCtx()
+			if prepare != nil {
+				prepare(ctx)
+			}
+			plan := upgradetypes.Plan{Name: u, Height: w.C.Height + 2}
+			if w.C.InBlock {
+				plan.Height = w.C.Hdr.Height + 1
+			}
+			if err := w.C.App.UpgradeKeeper.ScheduleUpgrade(ctx, plan); err != nil {
+				fail("schedule %s: %v", u, err)
+			}
+			if _, err := w.C.EndBlock(); err != nil {
+				fail("%v", err)
+			}
+			if err := w.C.Commit(); err != nil {
+				fail("%v", err)
+			}
+			before := custom()
+			if stopAtHeight {
+				if err := w.C.App.UpgradeKeeper.DumpUpgradeInfoToDisk(plan.Height, plan); err != nil {
+					fail("halt file: %v", err)
+				}
+				if err := w.C.Reopen(); err != nil {
+					fail("restart at the height of %s failed: %v", u, err)
+				}
+			}
+			if _, err := w.C.BeginBlock(5 * time.Second); err != nil {
+				fail("the %s upgrade block halted: %v", u, err)
+			}
+			if _, err := w.C.EndBlock(); err != nil {
+				fail("EndBlock of the %s upgrade block: %v", u, err)
+			}
+			if err := w.C.Commit(); err != nil {
+				fail("Commit of the %s upgrade block: %v", u, err)
+			}
+			w.SyncCommitted()
+			cctx := w.C.CommittedCtx()
+			if h := w.C.App.UpgradeKeeper.GetDoneHeight(cctx, u); h != plan.Height {
+				fail("upgrade %s recorded as done at height %d, expected %d", u, h, plan.Height)
+			}
+			vm, want := w.C.App.UpgradeKeeper.GetModuleVersionMap(cctx), w.C.App.ModuleManager.GetVersionMap()
+			for _, m := range world.SortedKeys(want) {
+				if vm[m] != want[m] {
+					fail("after the %s upgrade block module %s is recorded at version %d, the release runs version %d", u, m, vm[m], want[m])
+				}
+			}
+			after := custom()
+			for _, s := range []string{"aol", "did", "pnft"} {
+				if !world.EqualKV(before[s], after[s]) {
+					fail("the %s store changed across the %s upgrade block", s, u)
+				}
+			}
+		}
+		steps(cfg1, 6+g.intn("pre-steps", 14))
+		upgrade(older.UpgradeName, func(ctx sdk.Context) {
+			// the shape before the older upgrade: what its descriptor introduces is not there yet
+			us := ctx.KVStore(w.C.App.GetKey(upgradetypes.StoreKey))
+			for _, name := range older.StoreUpgrades.Added {
+				us.Delete(append([]byte{upgradetypes.VersionMapByte}, []byte(strings.ToLower(name))...))
+				if k := w.C.App.GetKey(name); k != nil && strings.ToLower(name) != "consensus" {
+					store := ctx.KVStore(k)
+					var keys [][]byte
+					it := store.Iterator(nil, nil)
+					for ; it.Valid(); it.Next() {
+						keys = append(keys, append([]byte{}, it.Key()...))
+					}
+					it.Close()
+					for _, kk := range keys {
+						store.Delete(kk)
+					}
+				}
+			}
+		}, false)
+		if g.chance("restart-between", 50) {
+			if err := w.C.Reopen(); err != nil {
+				fail("restart between the upgrades failed: %v", err)
+			}
+		}
+		steps(cfg2, 4+g.intn("mid-steps", 10))
+		upgrade(newest.UpgradeName, nil, g.chance("stop-at-height", 70))
+		steps(cfg2, 2+g.intn("tail-steps", 6))
+		st.add(lab(w, "aol topic created")+lab(w, "did created") > 0, hash8([]byte(w.ShapeString())), nil, "two upgrades in sequence")
+	})
+}
